@@ -106,7 +106,18 @@ def rule_SQ1(ctx, tier):
             rr.notes.append("%s has no effective PRAGMA foreign_keys=1; relying on libsqlite3-sys `bundled` (-DSQLITE_DEFAULT_FOREIGN_KEYS=1)" % fn)
         else:
             rr.fail("no-foreign-keys-pragma:%s" % shortfn(fn), "`%s` does not switch foreign keys on (PRAGMA foreign_keys=1) before creating / using the tables and sqlite is not the bundled build with foreign keys on by default: no ON DELETE CASCADE is honoured" % shortfn(fn), where=b.span)
-    rr.require_floor(22, "SQ1 instances")
+    # the schema is (re)created on every start: `CREATE TABLE IF NOT EXISTS` is idempotent, so a start that skips it because
+    # "the file is already there" cannot recover from a crash between creating the file and committing the schema
+    for fn in (TDBM + "new", PDBM + "new"):
+        b = ctx.prog.require(fn)
+        ct = sites_containing(b, "DatabaseManager", "create_tables")
+        oks = [bb for bb in b.rpo() for x in b.blocks[bb]["s"] if x["k"] == "assign" and x["d"] == [0] and x["rv"]["k"] == "agg" and x["rv"].get("variant") == "Ok"]
+        before = ctx.pf.called_before(b)
+        if ct and oks and all(any(n.endswith("DatabaseManager::create_tables") or "create_tables" in n for n in before.get(o, set())) for o in oks):
+            rr.ok("%s: create_tables on every successful construction" % shortfn(fn))
+        else:
+            rr.fail("schema-not-ensured:%s" % shortfn(fn), "`%s` can return Ok without having run create_tables: a database file that exists without its (complete) schema — e.g. after a crash right after the file was created — is never repaired and every later start fails" % shortfn(fn), where=b.span)
+    rr.require_floor(24, "SQ1 instances")
     return rr
 
 
